@@ -54,7 +54,7 @@ func (st *state) loader(load, fetch, clear *core.Fn) {
 		c.Undecidedf("R2.newest", "LoadCheckpoint/fetch", fn.Decl.Pos(), "expected one call of fetchCheckpoint, found %d", len(calls))
 		return
 	}
-	fp, _ := g.Find(calls[0])
+	fp, _ := tt.Find(g, calls[0])
 	fas, ok := fp.Node().(*ast.AssignStmt)
 	if !ok || len(fas.Lhs) != 4 {
 		c.Undecidedf("R2.newest", "LoadCheckpoint/fetch", calls[0].Pos(), "the results of fetchCheckpoint are not bound to four variables")
@@ -120,11 +120,29 @@ func (st *state) loader(load, fetch, clear *core.Fn) {
 		}
 	}
 	dbKey := localObj(info, dbElem)
-	okDb := dbKey != nil && len(calls[0].Args) == 4 && core.Mentions(info, calls[0].Args[2], dbKey)
+	okDb := dbKey != nil && len(calls[0].Args) == 4 && tt.MentionsResolved(info, body, calls[0].Args[2], dbKey, 3)
+	// the argument may carry the database in a way that is not followed (a local assigned several
+	// times, a call): only an argument built from constants and fields alone is provably not the database
+	opaqueArg := false
+	if len(calls[0].Args) == 4 {
+		ast.Inspect(calls[0].Args[2], func(n ast.Node) bool {
+			switch v := n.(type) {
+			case *ast.Ident:
+				if o, isVar := core.ObjOf(info, v).(*types.Var); isVar && !o.IsField() && o.Pkg() != nil && o.Parent() != o.Pkg().Scope() {
+					opaqueArg = true
+				}
+			case *ast.CallExpr:
+				if tv, ok := info.Types[v.Fun]; !ok || !tv.IsType() {
+					opaqueArg = true
+				}
+			}
+			return true
+		})
+	}
 	switch {
 	case okList && okDb:
 		c.Okf("R2.newest", "LoadCheckpoint/every-database", loop.Pos(), "fetchCheckpoint is called for every database listed by ParseKeyspace(info keyspace), with that database")
-	case !okDb && dbKey != nil:
+	case !okDb && dbKey != nil && !opaqueArg:
 		c.Failf("R2.newest", "LoadCheckpoint/every-database", loop.Pos(), "fetchCheckpoint is not called with the database of the iteration (`%s`): the checkpoints of the other databases are never looked at", c.Src(calls[0].Args[2]))
 	default:
 		c.Undecidedf("R2.newest", "LoadCheckpoint/every-database", loop.Pos(), "cannot relate the list of databases `%s` to ParseKeyspace(info keyspace)", c.Src(loop.X))
@@ -270,6 +288,43 @@ func (st *state) loader(load, fetch, clear *core.Fn) {
 	for k := range src {
 		key := "LoadCheckpoint/records-" + strings.ReplaceAll(recName[k], " ", "")
 		if recAssign[k] == nil {
+			// absence: nothing anywhere in the loop (nested loops and closures included) hands the
+			// fetched value on
+			handed := false
+			ast.Inspect(loop.Body, func(n ast.Node) bool {
+				switch st := n.(type) {
+				case *ast.AssignStmt:
+					for i, r := range st.Rhs {
+						if len(st.Lhs) == len(st.Rhs) {
+							if id, ok := st.Lhs[i].(*ast.Ident); ok && id.Name == "_" {
+								continue // discarded
+							}
+						}
+						if src[k] != nil && core.Mentions(info, r, src[k]) {
+							handed = true
+						}
+					}
+				case *ast.ValueSpec:
+					for _, r := range st.Values {
+						if src[k] != nil && core.Mentions(info, r, src[k]) {
+							handed = true
+						}
+					}
+				case *ast.CallExpr:
+					if _, isLit := ast.Unparen(st.Fun).(*ast.FuncLit); isLit || core.CalleeFunc(info, st) == nil {
+						for _, a := range st.Args {
+							if src[k] != nil && core.Mentions(info, a, src[k]) {
+								handed = true // handed to a function value
+							}
+						}
+					}
+				}
+				return !handed
+			})
+			if handed {
+				c.Undecidedf("R2.newest", key, cmp.Pos(), "the %s is handed on inside the scan in a form that is not analysed", recName[k])
+				continue
+			}
 			c.Failf("R2.newest", key, cmp.Pos(), "the %s of the newest checkpoint is never recorded: LoadCheckpoint returns the newest offset together with the %s of a different (or no) checkpoint", recName[k], recName[k])
 			continue
 		}
@@ -354,6 +409,16 @@ func (st *state) loader(load, fetch, clear *core.Fn) {
 						matched++
 					}
 				}
+				// the record copied as a whole: `best = found`, `newest, err = r0, r1`
+				if ro, lo := plain(as.Rhs[i]), plain(as.Lhs[i]); ro.obj != nil && lo.obj != nil && ro.field == "" && lo.field == "" && ro.obj != lo.obj {
+					if _, isId := ast.Unparen(as.Rhs[i]).(*ast.Ident); isId {
+						for k := range recCar {
+							if recCar[k].field != "" && recCar[k].obj == ro.obj {
+								recCar[k].obj = lo.obj
+							}
+						}
+					}
+				}
 			}
 			if matched < 2 {
 				return true // a copy of the whole record, not a single use
@@ -370,15 +435,25 @@ func (st *state) loader(load, fetch, clear *core.Fn) {
 			return true
 		})
 	}
-	for k := range recCar {
-		rec[k] = nil
-		if recCar[k].field == "" {
-			rec[k] = recCar[k].obj
-		}
-	}
-	if rec[0] == nil || rec[1] == nil || rec[2] == nil || rec[3] == nil {
-		c.Undecidedf("R3.gate", "LoadCheckpoint/result", fn.Decl.Pos(), "the recorded checkpoint stays inside a record; the gates are not analysed in that form")
+	rc := recCar // the carriers of the recorded run id, offset, version, db from here on
+	if rc[1].obj == nil {
+		c.Undecidedf("R3.gate", "LoadCheckpoint/result", fn.Decl.Pos(), "the carrier of the recorded offset is unknown")
 		return
+	}
+	// e denotes the recorded value k (through conversions and single-assignment copies)
+	isRec := func(e ast.Expr, k int) bool {
+		cur := rootExpr(info, e)
+		for i := 0; i < 6; i++ {
+			if cr := carOf(cur); cr.obj != nil && cr == rc[k] {
+				return true
+			}
+			next := rootExpr(info, tt.Resolve(info, body, cur, 1))
+			if next == cur {
+				return false
+			}
+			cur = next
+		}
+		return false
 	}
 	srcExpr, nameExpr := ast.Expr(nil), ast.Expr(nil)
 	if len(calls[0].Args) == 4 {
@@ -395,25 +470,26 @@ func (st *state) loader(load, fetch, clear *core.Fn) {
 			}
 			return true
 		})
-		lp, _ := loadView.G.Find(viaCall)
+		lp, _ := tt.Find(loadView.G, viaCall)
 		las, ok := lp.Node().(*ast.AssignStmt)
 		if hret == nil || !ok || len(las.Rhs) != 1 || len(las.Lhs) != len(hret.Results) {
 			c.Undecidedf("R3.gate", "LoadCheckpoint/result", viaCall.Pos(), "cannot relate the results of %s to the variables of LoadCheckpoint", fn.Decl.Name.Name)
 			return
 		}
-		var lrec [4]types.Object
-		for k := range rec {
+		lrec := make([]car, 4)
+		for k := range rc {
 			for i, r := range hret.Results {
-				if localObj(info, r) == rec[k] {
-					lrec[k] = localObj(info, las.Lhs[i])
+				if _, isId := ast.Unparen(r).(*ast.Ident); isId && localObj(info, r) == rc[k].obj {
+					// the value itself, or the record that holds it returned as a whole
+					lrec[k] = car{obj: localObj(info, las.Lhs[i]), field: rc[k].field}
 				}
 			}
-			if lrec[k] == nil {
+			if lrec[k].obj == nil {
 				c.Undecidedf("R3.gate", "LoadCheckpoint/result", viaCall.Pos(), "%s does not return the recorded %s", fn.Decl.Name.Name, recName[k])
 				return
 			}
 		}
-		copy(rec, lrec[:])
+		rc = lrec
 		body = loadView.Body
 		g = loadView.G
 		x = loadView.X(c.Program)
@@ -427,9 +503,9 @@ func (st *state) loader(load, fetch, clear *core.Fn) {
 	}
 	for _, r := range rets {
 		res := func(i int) types.Object {
-			return localObj(info, tt.Resolve(info, body, rootExpr(info, r.Results[i]), 4))
+			return carOf(tt.Resolve(info, body, rootExpr(info, r.Results[i]), 4)).obj
 		}
-		ok := denotes(info, body, r.Results[0], rec[0]) && denotes(info, body, r.Results[1], rec[1]) && denotes(info, body, r.Results[2], rec[3])
+		ok := isRec(r.Results[0], 0) && isRec(r.Results[1], 1) && isRec(r.Results[2], 3)
 		if !ok && (res(0) == nil || res(1) == nil || res(2) == nil) {
 			if _, isConst := core.IntConst(info, r.Results[2]); !isConst {
 				c.Undecidedf("R3.gate", "LoadCheckpoint/result", r.Pos(), "cannot relate the returned values `%s` to the recorded checkpoint", c.Src(r))
@@ -473,8 +549,8 @@ func (st *state) loader(load, fetch, clear *core.Fn) {
 		op := be.Op
 		rx, ry := tt.Resolve(info, body, be.X, 6), tt.Resolve(info, body, be.Y, 6)
 		switch {
-		case denotes(info, body, be.X, rec[2]) && isFC(ry):
-		case denotes(info, body, be.Y, rec[2]) && isFC(rx):
+		case isRec(be.X, 2) && isFC(ry):
+		case isRec(be.Y, 2) && isFC(rx):
 			if m, ok := mirror[op]; ok {
 				op = m
 			}
@@ -495,7 +571,7 @@ func (st *state) loader(load, fetch, clear *core.Fn) {
 			p   string
 			val bool
 		}{{"_v != -1", true}, {"_v == -1", false}, {"_v >= 0", true}, {"_v < 0", false}} {
-			if b := pat.Expr(t.p).Match(info, f.Expr, nil); b != nil && f.Val == t.val && denotes(info, body, b["_v"].(ast.Expr), rec[2]) {
+			if b := pat.Expr(t.p).Match(info, f.Expr, nil); b != nil && f.Val == t.val && isRec(b["_v"].(ast.Expr), 2) {
 				return true
 			}
 		}
@@ -507,6 +583,16 @@ func (st *state) loader(load, fetch, clear *core.Fn) {
 			continue
 		}
 		for si := range b.Succs {
+			// an edge that requires a constant to have the other value is never taken: no gate
+			dead := false
+			for _, f := range x.EdgeFacts(b, si) {
+				if bv, isConst := tt.BoolConst(info, f.Expr); isConst && bv != f.Val {
+					dead = true
+				}
+			}
+			if dead {
+				continue
+			}
 			for _, f := range x.EdgeFacts(b, si) {
 				r, ok := relOf(f)
 				if !ok {
@@ -516,6 +602,8 @@ func (st *state) loader(load, fetch, clear *core.Fn) {
 				// flag- and nil-tracking search: `err = Errorf(..)` on this edge and `if err != nil { return }` later
 				accepts := x.Reach(tt.ReachQuery{From: cfgq.Point{B: b}, FromSucc: si, Env: tt.Env{}, Target: isRet})
 				switch {
+				case r == "<" && accepts != nil && x.Shaky:
+					c.Undecidedf("R3.gate", "LoadCheckpoint/version-gate", f.Expr.Pos(), "whether a checkpoint below FeatureCompatibleVersion is accepted depends on a call that is not evaluated")
 				case r == "<" && accepts != nil:
 					c.Check("R3.gate", "LoadCheckpoint/version-gate", f.Expr.Pos(), false, "a checkpoint whose version is below FeatureCompatibleVersion (written by an incompatible older release) is accepted and resumed", accepts...)
 				case r == "<":
@@ -535,6 +623,26 @@ func (st *state) loader(load, fetch, clear *core.Fn) {
 		mention := false // in a branch condition (the error text may mention it as well)
 		for _, b := range g.CFG.Blocks {
 			if cond := x.Cond(b); cond != nil && b.Live {
+				// the condition with its boolean locals written out (whatever assigns them)
+				var deep func(e ast.Expr, depth int)
+				deep = func(e ast.Expr, depth int) {
+					ast.Inspect(e, func(n ast.Node) bool {
+						if ex, ok := n.(ast.Expr); ok && (isFC(ex) || isSel(ex, "IsCompatible")) {
+							mention = true
+						}
+						if id, ok := n.(*ast.Ident); ok && depth > 0 {
+							if o, isVar := core.ObjOf(info, id).(*types.Var); isVar && !o.IsField() {
+								for _, d := range tt.DefsOf(info, body, o) {
+									if d.Rhs != nil {
+										deep(d.Rhs, depth-1)
+									}
+								}
+							}
+						}
+						return !mention
+					})
+				}
+				deep(cond, 3)
 				ast.Inspect(cond, func(n ast.Node) bool {
 					if e, ok := n.(ast.Expr); ok && (isFC(e) || isSel(e, "IsCompatible")) {
 						mention = true
@@ -574,9 +682,9 @@ func (st *state) loader(load, fetch, clear *core.Fn) {
 				}
 				var lit string
 				var isStr bool
-				if localObj(info, be.X) == rec[0] {
+				if cr := carOf(be.X); cr.obj != nil && cr == rc[0] {
 					lit, isStr = core.StringConst(info, be.Y)
-				} else if localObj(info, be.Y) == rec[0] {
+				} else if cr := carOf(be.Y); cr.obj != nil && cr == rc[0] {
 					lit, isStr = core.StringConst(info, be.X)
 				}
 				if !isStr {
@@ -584,7 +692,7 @@ func (st *state) loader(load, fetch, clear *core.Fn) {
 				}
 				marks++
 				w := g.Path(cfgq.Query{From: cfgq.Point{B: b.Succs[si]}, Target: isRet, Avoid: func(n ast.Node) bool {
-					return pat.Stmt("_d = -1").Match(info, n, nil) != nil && localObj(info, n.(*ast.AssignStmt).Lhs[0]) == rec[3]
+					return pat.Stmt("_d = -1").Match(info, n, nil) != nil && carOf(n.(*ast.AssignStmt).Lhs[0]) == rc[3]
 				}})
 				c.Check("R3.gate", "LoadCheckpoint/unknown-runid", f.Expr.Pos(), w == nil && (st.unknown == "" || lit == st.unknown),
 					fmt.Sprintf("when the newest checkpoint lacks a run id (fetchCheckpoint's marker %q, tested here as %q) the db must be reported as -1 so that every checkpoint is cleared and a full sync follows", st.unknown, lit), w...)
@@ -603,17 +711,21 @@ func (st *state) loader(load, fetch, clear *core.Fn) {
 			same := func(a, b ast.Expr) bool { // the same value, seen through single-assignment copies
 				return pat.Same(info, tt.Resolve(info, body, a, 6), tt.Resolve(info, body, b, 6))
 			}
-			okArgs := len(call.Args) == 6 && localObj(info, call.Args[2]) == rec[3] && mpExpr != nil && same(call.Args[3], mpExpr)
+			okArgs := len(call.Args) == 6 && carOf(call.Args[2]) == rc[3] && mpExpr != nil && same(call.Args[3], mpExpr)
 			okSrc := false
 			if srcExpr != nil && nameExpr != nil && len(call.Args) == 6 {
 				okSrc = same(call.Args[4], srcExpr) && same(call.Args[5], nameExpr)
 			}
-			cp, _ := g.Find(call)
+			cp, _ := tt.Find(g, call)
 			dom := g.Path(cfgq.Query{From: g.Entry(), Target: isRet, Avoid: func(nd ast.Node) bool { return nd == cp.Node() }}) == nil
 			c.Check("R5.clear", "LoadCheckpoint/call", call.Pos(), okArgs && okSrc && dom, "before returning, ClearCheckpoint must be called with the chosen db as the exception, the same database list, source address and checkpoint name: otherwise stale checkpoints of this source survive or the chosen one is deleted")
 		}
 		if n == 0 {
-			c.Failf("R5.clear", "LoadCheckpoint/call", fn.Decl.Pos(), "LoadCheckpoint never calls ClearCheckpoint: stale checkpoints of this source are not removed")
+			if tt.ReachesFunc(c.Program, info, body, clear.Obj, 3) {
+				c.Undecidedf("R5.clear", "LoadCheckpoint/call", fn.Decl.Pos(), "ClearCheckpoint is used through a helper or a function value: the call is not analysed in that form")
+			} else {
+				c.Failf("R5.clear", "LoadCheckpoint/call", fn.Decl.Pos(), "LoadCheckpoint never calls ClearCheckpoint: stale checkpoints of this source are not removed")
+			}
 		}
 	}
 }
@@ -639,10 +751,17 @@ func denotes(info *types.Info, root ast.Node, e ast.Expr, o types.Object) bool {
 
 // rootExpr strips conversions.
 func rootExpr(info *types.Info, e ast.Expr) ast.Expr {
-	if id := rootIdent(info, e); id != nil {
-		return id
+	for {
+		e = ast.Unparen(e)
+		call, ok := e.(*ast.CallExpr)
+		if !ok || len(call.Args) != 1 {
+			return e
+		}
+		if tv, ok := info.Types[call.Fun]; !ok || !tv.IsType() {
+			return e
+		}
+		e = call.Args[0]
 	}
-	return e
 }
 
 func anyFailed(c *core.Ctx, key string) bool {
